@@ -373,65 +373,95 @@ def classify_exception(e):
     return {'exc_type': type(e).__name__, 'exc_msg': str(e)[:200], 'where': where}
 
 
+class Run:
+    """result of one monitored run of the real World"""
+    def __init__(self):
+        self.outcome = None
+        self.exc = None
+        self.exc_info = {}
+        self.ref = None
+        self.loop = None
+        self.log = None
+        self.world = None
+        self.until = None
+
+
+def run_world(eng, topo, cfg, behaviour=None, hook=None, fault=None, rules=None, var_prefix='', run_kwargs=None,
+              world_kwargs=None):
+    """Build the scenario of `topo` in a real World on an OracleLoop and run it.  Returns a Run.
+    The caller states the obligations on the outcome."""
+    rules = tuple(rules if rules is not None else cfg.get('rules', ('C01', 'C02', 'C03', 'C05', 'C07', 'C10')))
+    until = cfg.get('until', 3)
+    if until == 'sym':
+        until = eng.int('until', cfg.get('until_min', 1))
+    loop = OracleLoop(eng, D=cfg.get('D', 0))
+    log = []
+    ref = Ref(eng, rules=rules, lazy=cfg.get('lazy', True))
+    ref.prefix = cfg.get('rule_prefix', '')
+    CTX.clear()
+    CTX.update(eng=eng, loop=loop, K=cfg.get('K', 2), until=until, ref=ref, log=log,
+               sync=set(cfg.get('sync', ())), future_outputs=cfg.get('future_outputs', False),
+               no_self=set(cfg.get('no_self', ())), behaviour=behaviour, hook=hook, fault=fault,
+               bounded_times=bool(cfg.get('cache', True) or cfg.get('debug', False)))
+    r = Run()
+    r.ref, r.loop, r.log, r.until = ref, loop, log, until
+    with patched(salt=cfg.get('salt', 0)):
+        wk = dict(skip_greetings=True, asyncio_loop=loop, cache=cfg.get('cache', True), debug=cfg.get('debug', False),
+                  max_loop_iterations=cfg.get('max_loop_iterations', 100))
+        if world_kwargs:
+            wk.update(world_kwargs)
+        w = mosaik.World({'S': {'python': 'vk.sysrun:SymSim'}}, **wk)
+        r.world = w
+        try:
+            build(w, ref, topo, eng, cfg)
+            ref.start(until)
+            loop.active = True
+            try:
+                rk = dict(print_progress=False, lazy_stepping=cfg.get('lazy', True))
+                if run_kwargs:
+                    rk.update(run_kwargs)
+                w.run(until=until, **rk)
+                r.outcome = 'done'
+            except Deadlock:
+                r.outcome = 'deadlock'
+            except Livelock:
+                r.outcome = 'livelock'
+            except (E.Unsupported, E.HarnessError, E.ReplayDiverged):
+                raise
+            except Exception as e:  # noqa: the verdict is the exception
+                r.exc = e
+                r.exc_info = classify_exception(e)
+                r.outcome = 'exc:' + type(e).__name__
+            finally:
+                loop.active = False
+        finally:
+            if not loop.is_closed():
+                try:
+                    loop.close()
+                except Exception:
+                    pass
+    return r
+
+
 def system(topo, cfg):
     """Generic system harness.  cfg keys: until (int | 'sym'), K, cache, lazy, D, sync (list of
     sids answering synchronously), salt, rules (list of property ids monitored), debug."""
     rules = tuple(cfg.get('rules', ('C01', 'C02', 'C03', 'C05', 'C07', 'C10')))
 
     def h(eng):
-        until = cfg.get('until', 3)
-        if until == 'sym':
-            until = eng.int('until', cfg.get('until_min', 1))
-        loop = OracleLoop(eng, D=cfg.get('D', 0))
-        log = []
-        ref = Ref(eng, rules=rules, lazy=cfg.get('lazy', True))
-        pre = ref.prefix = cfg.get('rule_prefix', '')
-        CTX.clear()
-        CTX.update(eng=eng, loop=loop, K=cfg.get('K', 2), until=until, ref=ref, log=log,
-                   sync=set(cfg.get('sync', ())), future_outputs=cfg.get('future_outputs', False),
-                   no_self=set(cfg.get('no_self', ())),
-                   bounded_times=bool(cfg.get('cache', True) or cfg.get('debug', False)))
-        outcome = None
-        info = {}
-        with patched(salt=cfg.get('salt', 0)):
-            w = mosaik.World({'S': {'python': 'vk.sysrun:SymSim'}}, skip_greetings=True, asyncio_loop=loop,
-                             cache=cfg.get('cache', True), debug=cfg.get('debug', False),
-                             max_loop_iterations=cfg.get('max_loop_iterations', 100))
-            try:
-                build(w, ref, topo, eng, cfg)
-                ref.start(until)
-                loop.active = True
-                try:
-                    w.run(until=until, print_progress=False, lazy_stepping=cfg.get('lazy', True))
-                    outcome = 'done'
-                except Deadlock:
-                    outcome = 'deadlock'
-                except Livelock:
-                    outcome = 'livelock'
-                except (E.Unsupported, E.HarnessError, E.ReplayDiverged):
-                    raise
-                except Exception as e:  # noqa: the verdict is the exception
-                    info['exc'] = classify_exception(e)
-                    outcome = 'exc:' + type(e).__name__
-                finally:
-                    loop.active = False
-                if outcome == 'done':
-                    ref.on_end()
-                elif 'C05' in rules:
-                    x = info.get('exc', {})
-                    eng.alarm(pre + 'C05.' + outcome.split(':')[0],
-                              f"run() did not complete: {outcome} {x.get('exc_msg', '')} at {x.get('where')}; pending={[(p[0], p[1]) for p in loop.pending]}",
-                              {'exc': x, 'fp': ['C05', outcome, x.get('where'), x.get('exc_msg', '')[:40]]})
-            finally:
-                if not loop.is_closed():
-                    try:
-                        loop.close()
-                    except Exception:
-                        pass
-        info['nontrivial'] = ref.nsteps > 0
-        info['steps'] = ref.nsteps
-        info['counts'] = dict(ref.counts)
-        info['trace'] = ref.trace[:60]
-        info['deliveries'] = loop.deliveries[:60]
-        return (outcome, info)
+        r = run_world(eng, topo, cfg, rules=rules)
+        ref, loop = r.ref, r.loop
+        pre = ref.prefix
+        if r.outcome == 'done':
+            ref.on_end()
+        elif 'C05' in rules:
+            x = r.exc_info
+            eng.alarm(pre + 'C05.' + r.outcome.split(':')[0],
+                      f"run() did not complete: {r.outcome} {x.get('exc_msg', '')} at {x.get('where')}; pending={[(p[0], p[1]) for p in loop.pending]}",
+                      {'exc': x, 'fp': ['C05', r.outcome, x.get('where'), x.get('exc_msg', '')[:40]]})
+        info = {'nontrivial': ref.nsteps > 0, 'steps': ref.nsteps, 'counts': dict(ref.counts), 'trace': ref.trace[:60],
+                'deliveries': loop.deliveries[:60]}
+        if r.exc_info:
+            info['exc'] = r.exc_info
+        return (r.outcome, info)
     return h
